@@ -20,6 +20,8 @@ def classify(argv):
     if name == "git":
         if rest in GIT_NAMES:
             return GIT_NAMES[rest]
+        if rest[:2] == ("status", "--porcelain"):
+            return "status"                    # whatever listing options follow
         if rest[:2] == ("add", "--update"):
             return "add:" + rest[2]
         if rest[:1] == ("commit",):
